@@ -218,7 +218,7 @@ class Gen:
             return "%s %s :%s" % (cmd, r.choice([c, n, "$*", n, c]), t)
         if cmd == "MODE":
             target = r.choice([c, c, n])
-            ms = r.choice(["", "+i", "-i", "+t", "-t", "+s", "+n", "-n", "+k", "-k", "+o", "-o", "+b", "-b", "+x", "+z", "+io", "-o+o", "+G", "+r", "+tk-i", "+ä", "b", "+bb"])
+            ms = r.choice(["", "+i", "-i", "+t", "-t", "+s", "+n", "-n", "+k", "-k", "+o", "-o", "+b", "-b", "+x", "+z", "+io", "-o+o", "+G", "+r", "+tk-i", "+ä", "b", "+bb", "+\u010a", "-\u010d", "+\u0100", "+t\u260a", "+\U0001f60a"])
             args = []
             for ch in ms:
                 if ch in "ok":
